@@ -275,7 +275,12 @@ class Scenario(object):
             elif k == 'stop':
                 ch.stop_consuming()
             elif k == 'close':
-                ch.close()
+                if len(op) > 1 and op[1] == 'with' and ch.is_open:
+                    # leaving a `with channel:` block: on an open channel the source makes this
+                    # close(); on any other it does nothing (not interesting, so close() is used)
+                    ch.__exit__(None, None, None)
+                else:
+                    ch.close()
             elif k == 'idle':
                 while self.script:
                     self.rt.advance(0.01)
